@@ -1,22 +1,69 @@
 import Bptk.Core.C14
 /-!
-C14 — property theorems.  Quantifier: every operation history (`List Op`), unbounded.
+C14 — property theorems.  Quantifier: every operation history (`List Op`), unbounded; every set of
+registered factory keys; every factory (`Fac`), faithful (`attribute = key`) for the full statement,
+arbitrary for `C14_partial_anyattr`.
 -/
 namespace Bptk.C14
 
-/-- Registry invariant. -/
-structure Inv (r : Reg) : Prop where
+/-! ### `reg` is fixed -/
+
+theorem reg_create (f : Fac) (r : Reg) (k : Nat) : (create f r k).reg = r.reg := rfl
+
+theorem reg_createN (f : Fac) (k : Nat) (n : Nat) : ∀ r : Reg, (createN f r k n).reg = r.reg := by
+  induction n with
+  | zero => intro r; rfl
+  | succ n ih => intro r; simp only [createN]; rw [ih]; rfl
+
+theorem reg_createSpec (f : Fac) (spec : List (Nat × Nat)) : ∀ r : Reg, (createSpec f r spec).reg = r.reg := by
+  induction spec with
+  | nil => intro r; rfl
+  | cons p rest ih =>
+    intro r; obtain ⟨k, n⟩ := p
+    simp only [createSpec]; split
+    · rw [ih, reg_createN]
+    · rfl
+
+theorem reg_step (f : Fac) (r : Reg) (op : Op) : (step f r op).reg = r.reg := by
+  cases op with
+  | create k => simp only [step, createOp]; split <;> rfl
+  | delete ids => rfl
+  | configure spec => simp only [step]; rw [reg_createSpec]; rfl
+  | reset => rfl
+  | setState id st => rfl
+  | configureAll spec => simp only [step]; rw [reg_createSpec]; rfl
+
+theorem reg_run (f : Fac) (ops : List Op) : ∀ r : Reg, (run f r ops).reg = r.reg := by
+  induction ops with
+  | nil => intro r; rfl
+  | cons op rest ih => intro r; simp only [run, List.foldl_cons] at ih ⊢; rw [ih, reg_step]
+
+/-! ### Invariants -/
+
+/-- What holds for ARBITRARY factories. -/
+structure InvU (r : Reg) : Prop where
   sorted : (r.agents.map (·.id)).Pairwise (· < ·)
   bound : ∀ a ∈ r.agents, a.id < r.next
-  tmapOk : ∀ ty, r.tmap ty = idsOfType r.agents ty
   everSorted : r.ever.Pairwise (· < ·)
   everBound : ∀ i ∈ r.ever, i < r.next
   liveEver : ∀ a ∈ r.agents, a.id ∈ r.ever
+  tmapEver : ∀ t, ∀ i ∈ r.tmap t, i ∈ r.ever
+  tmapSorted : ∀ t, (r.tmap t).Pairwise (· < ·)
+  regMapped : ∀ t, r.reg t = true → r.mapped t = true
 
-theorem inv_init : Inv Reg.init := by
-  constructor <;> simp [Reg.init, idsOfType]
+/-- Registry invariant for faithful factories: additionally the type map is the per-type projection
+of the live agents and every agent's attribute is its key. -/
+structure Inv (r : Reg) : Prop extends InvU r where
+  tmapOk : ∀ ty, r.tmap ty = idsOfType r.agents ty
+  tyKey : ∀ a ∈ r.agents, a.ty = a.key
 
-theorem inv_create (r : Reg) (ty : Nat) (h : Inv r) : Inv (create r ty) := by
+theorem invU_init (reg : Nat → Bool) : InvU (Reg.init reg) := by
+  constructor <;> simp [Reg.init]
+
+theorem inv_init (reg : Nat → Bool) : Inv (Reg.init reg) :=
+  { toInvU := invU_init reg, tmapOk := by simp [Reg.init, idsOfType], tyKey := by simp [Reg.init] }
+
+theorem invU_create (f : Fac) (r : Reg) (k : Nat) (h : InvU r) : InvU (create f r k) := by
   constructor
   · simp only [create, List.map_append, List.map_cons, List.map_nil]
     rw [List.pairwise_append]
@@ -31,12 +78,6 @@ theorem inv_create (r : Reg) (ty : Nat) (h : Inv r) : Inv (create r ty) := by
     rcases ha with ha | rfl
     · have := h.bound a ha; omega
     · simp
-  · intro t
-    simp only [create, idsOfType, List.filter_append, List.map_append]
-    by_cases ht : t = ty
-    · subst ht; simp [h.tmapOk, idsOfType]
-    · have : (ty == t) = false := by simp; omega
-      simp [ht, h.tmapOk, idsOfType, List.filter_cons, this]
   · simp only [create]
     rw [List.pairwise_append]
     refine ⟨h.everSorted, by simp, ?_⟩
@@ -53,21 +94,74 @@ theorem inv_create (r : Reg) (ty : Nat) (h : Inv r) : Inv (create r ty) := by
     rcases ha with ha | rfl
     · exact Or.inl (h.liveEver a ha)
     · simp
+  · intro t i hi
+    simp only [create] at hi ⊢
+    split at hi
+    · rcases List.mem_append.mp hi with hi | hi
+      · exact List.mem_append.mpr (Or.inl (h.tmapEver t i hi))
+      · exact List.mem_append.mpr (Or.inr hi)
+    · exact List.mem_append.mpr (Or.inl (h.tmapEver t i hi))
+  · intro t
+    simp only [create]
+    split
+    · rw [List.pairwise_append]
+      refine ⟨h.tmapSorted t, by simp, ?_⟩
+      intro a ha b hb
+      simp at hb; subst hb
+      exact h.everBound a (h.tmapEver t a ha)
+    · exact h.tmapSorted t
+  · exact h.regMapped
 
-theorem inv_createN (n : Nat) : ∀ (r : Reg) (ty : Nat), Inv r → Inv (createN r ty n) := by
+theorem inv_create (f : Fac) (hf : Faithful f) (r : Reg) (ty : Nat) (h : Inv r) : Inv (create f r ty) := by
+  refine { toInvU := invU_create f r ty h.toInvU, tmapOk := ?_, tyKey := ?_ }
+  · intro t
+    simp only [create, idsOfType, List.filter_append, List.map_append, hf ty r.next]
+    by_cases ht : t = ty
+    · subst ht; simp [h.tmapOk, idsOfType]
+    · have : (ty == t) = false := by simp; omega
+      simp [ht, h.tmapOk, idsOfType, this]
+  · intro a ha
+    simp [create] at ha
+    rcases ha with ha | rfl
+    · exact h.tyKey a ha
+    · exact hf ty r.next
+
+theorem invU_createN (f : Fac) (n : Nat) : ∀ (r : Reg) (ty : Nat), InvU r → InvU (createN f r ty n) := by
   induction n with
   | zero => intro r ty h; exact h
-  | succ n ih => intro r ty h; exact ih _ _ (inv_create r ty h)
+  | succ n ih => intro r ty h; exact ih _ _ (invU_create f r ty h)
 
-theorem inv_createSpec (spec : List (Nat × Nat)) : ∀ r, Inv r → Inv (createSpec r spec) := by
+theorem inv_createN (f : Fac) (hf : Faithful f) (n : Nat) : ∀ (r : Reg) (ty : Nat), Inv r → Inv (createN f r ty n) := by
+  induction n with
+  | zero => intro r ty h; exact h
+  | succ n ih => intro r ty h; exact ih _ _ (inv_create f hf r ty h)
+
+theorem invU_createSpec (f : Fac) (spec : List (Nat × Nat)) : ∀ r, InvU r → InvU (createSpec f r spec) := by
   induction spec with
   | nil => intro r h; exact h
-  | cons p rest ih => intro r h; obtain ⟨ty, n⟩ := p; exact ih _ (inv_createN n r ty h)
+  | cons p rest ih =>
+    intro r h; obtain ⟨ty, n⟩ := p
+    simp only [createSpec]; split
+    · exact ih _ (invU_createN f n r ty h)
+    · exact h
 
-theorem inv_clear (r : Reg) (h : Inv r) : Inv (clear r) := by
-  constructor <;> simp [clear, idsOfType]
+theorem inv_createSpec (f : Fac) (hf : Faithful f) (spec : List (Nat × Nat)) : ∀ r, Inv r → Inv (createSpec f r spec) := by
+  induction spec with
+  | nil => intro r h; exact h
+  | cons p rest ih =>
+    intro r h; obtain ⟨ty, n⟩ := p
+    simp only [createSpec]; split
+    · exact ih _ (inv_createN f hf n r ty h)
+    · exact h
+
+theorem invU_clear (r : Reg) (h : InvU r) : InvU (clear r) := by
+  constructor <;> simp [clear]
   · exact h.everSorted
   · exact h.everBound
+  · exact h.regMapped
+
+theorem inv_clear (r : Reg) (h : Inv r) : Inv (clear r) :=
+  { toInvU := invU_clear r h.toInvU, tmapOk := by simp [clear, idsOfType], tyKey := by simp [clear] }
 
 theorem filter_filter_ty (as : List Agent) (p : Agent → Bool) (t : Nat) :
     idsOfType (as.filter p) t = ((as.filter (fun a => a.ty == t)).filter p).map (·.id) := by
@@ -77,13 +171,41 @@ theorem filter_filter_ty (as : List Agent) (p : Agent → Bool) (t : Nat) :
   intro a _
   exact Bool.and_comm _ _
 
-theorem inv_delete (r : Reg) (ids : List Nat) (h : Inv r) : Inv (delete r ids) := by
+theorem idsOfType_sublist (as : List Agent) (p : Agent → Bool) (t : Nat) :
+    (idsOfType (as.filter p) t).Sublist (as.map (·.id)) := by
+  simp only [idsOfType]
+  exact List.Sublist.map _ (List.Sublist.trans List.filter_sublist List.filter_sublist)
+
+theorem invU_delete (r : Reg) (ids : List Nat) (h : InvU r) : InvU (delete r ids) := by
   constructor
   · simp only [delete]
     exact List.Pairwise.sublist (List.Sublist.map _ List.filter_sublist) h.sorted
   · intro a ha
     simp only [delete] at ha ⊢
     exact h.bound a (List.mem_filter.mp ha).1
+  · exact h.everSorted
+  · exact h.everBound
+  · intro a ha
+    simp only [delete] at ha ⊢
+    exact h.liveEver a (List.mem_filter.mp ha).1
+  · intro t i hi
+    simp only [delete] at hi ⊢
+    split at hi
+    · have hs := (idsOfType_sublist r.agents _ t).subset hi
+      obtain ⟨a, ha, rfl⟩ := List.mem_map.mp hs
+      exact h.liveEver a ha
+    · exact h.tmapEver t i hi
+  · intro t
+    simp only [delete]
+    split
+    · exact List.Pairwise.sublist (idsOfType_sublist r.agents _ t) h.sorted
+    · exact h.tmapSorted t
+  · intro t ht
+    simp only [delete]
+    simp [h.regMapped t ht]
+
+theorem inv_delete (r : Reg) (ids : List Nat) (h : Inv r) : Inv (delete r ids) := by
+  refine { toInvU := invU_delete r ids h.toInvU, tmapOk := ?_, tyKey := ?_ }
   · intro t
     simp only [delete]
     split
@@ -105,11 +227,9 @@ theorem inv_delete (r : Reg) (ids : List Nat) (h : Inv r) : Inv (delete r ids) :
       simp only [List.contains_iff_mem, List.mem_map, List.mem_filter]
       refine ⟨a, ⟨hat.1, by simpa using hc⟩, ?_⟩
       simpa using hat.2
-  · exact h.everSorted
-  · exact h.everBound
   · intro a ha
-    simp only [delete] at ha ⊢
-    exact h.liveEver a (List.mem_filter.mp ha).1
+    simp only [delete] at ha
+    exact h.tyKey a (List.mem_filter.mp ha).1
 
 theorem setState_map_id (as : List Agent) (id st : Nat) :
     (setState as id st).map (·.id) = as.map (·.id) := by
@@ -128,65 +248,106 @@ theorem setState_idsOfType (as : List Agent) (id st t : Nat) :
     · simp [idsOfType, List.filter_cons]; split <;> simp
     · simp only [idsOfType, List.filter_cons] at ih ⊢; split <;> simp [ih]
 
+theorem setState_idsOfKey (as : List Agent) (id st t : Nat) :
+    idsOfKey (setState as id st) t = idsOfKey as t := by
+  induction as with
+  | nil => rfl
+  | cons a rest ih =>
+    simp only [setState]
+    split
+    · simp [idsOfKey, List.filter_cons]; split <;> simp
+    · simp only [idsOfKey, List.filter_cons] at ih ⊢; split <;> simp [ih]
+
 theorem setState_mem (as : List Agent) (id st : Nat) (b : Agent) (hb : b ∈ setState as id st) :
-    ∃ a ∈ as, a.id = b.id := by
+    ∃ a ∈ as, a.id = b.id ∧ a.ty = b.ty ∧ a.key = b.key := by
   induction as with
   | nil => simp [setState] at hb
   | cons a rest ih =>
     simp only [setState] at hb
     split at hb
     · rcases List.mem_cons.mp hb with rfl | hb
-      · exact ⟨a, by simp, rfl⟩
-      · exact ⟨b, by simp [hb], rfl⟩
+      · exact ⟨a, by simp, rfl, rfl, rfl⟩
+      · exact ⟨b, by simp [hb], rfl, rfl, rfl⟩
     · rcases List.mem_cons.mp hb with rfl | hb
-      · exact ⟨b, by simp, rfl⟩
+      · exact ⟨b, by simp, rfl, rfl, rfl⟩
       · obtain ⟨x, hx, hxe⟩ := ih hb
         exact ⟨x, by simp [hx], hxe⟩
 
-theorem inv_setState (r : Reg) (id st : Nat) (h : Inv r) :
-    Inv { r with agents := setState r.agents id st } := by
+theorem invU_setState (r : Reg) (id st : Nat) (h : InvU r) :
+    InvU { r with agents := setState r.agents id st } := by
   constructor
   · simp only [setState_map_id]; exact h.sorted
   · intro b hb
-    obtain ⟨a, ha, hae⟩ := setState_mem _ _ _ _ hb
+    obtain ⟨a, ha, hae, _⟩ := setState_mem _ _ _ _ hb
     have := h.bound a ha; simp only at *; omega
-  · intro t; simp only [setState_idsOfType]; exact h.tmapOk t
   · exact h.everSorted
   · exact h.everBound
   · intro b hb
-    obtain ⟨a, ha, hae⟩ := setState_mem _ _ _ _ hb
+    obtain ⟨a, ha, hae, _⟩ := setState_mem _ _ _ _ hb
     have := h.liveEver a ha; simp only at *; rw [← hae]; exact this
+  · exact h.tmapEver
+  · exact h.tmapSorted
+  · exact h.regMapped
 
-theorem inv_step (r : Reg) (op : Op) (h : Inv r) : Inv (step r op) := by
+theorem inv_setState (r : Reg) (id st : Nat) (h : Inv r) :
+    Inv { r with agents := setState r.agents id st } := by
+  refine { toInvU := invU_setState r id st h.toInvU, tmapOk := ?_, tyKey := ?_ }
+  · intro t; simp only [setState_idsOfType]; exact h.tmapOk t
+  · intro b hb
+    obtain ⟨a, ha, _, hty, hk⟩ := setState_mem _ _ _ _ hb
+    rw [← hty, ← hk]; exact h.tyKey a ha
+
+theorem invU_step (f : Fac) (r : Reg) (op : Op) (h : InvU r) : InvU (step f r op) := by
   cases op with
-  | create ty => exact inv_create r ty h
+  | create ty => simp only [step, createOp]; split; exact invU_create f r ty h; exact h
+  | delete ids => exact invU_delete r ids h
+  | configure spec => exact invU_createSpec f spec _ (invU_clear r h)
+  | reset => exact invU_clear r h
+  | setState id st => exact invU_setState r id st h
+  | configureAll spec => exact invU_createSpec f spec _ (invU_clear r h)
+
+theorem inv_step (f : Fac) (hf : Faithful f) (r : Reg) (op : Op) (h : Inv r) : Inv (step f r op) := by
+  cases op with
+  | create ty => simp only [step, createOp]; split; exact inv_create f hf r ty h; exact h
   | delete ids => exact inv_delete r ids h
-  | configure spec => exact inv_createSpec spec _ (inv_clear r h)
+  | configure spec => exact inv_createSpec f hf spec _ (inv_clear r h)
   | reset => exact inv_clear r h
   | setState id st => exact inv_setState r id st h
+  | configureAll spec => exact inv_createSpec f hf spec _ (inv_clear r h)
 
-/-- The invariant holds in every reachable state. -/
-theorem inv_run (ops : List Op) : ∀ r, Inv r → Inv (run r ops) := by
+theorem invU_run (f : Fac) (ops : List Op) : ∀ r, InvU r → InvU (run f r ops) := by
   induction ops with
   | nil => intro r h; exact h
-  | cons op rest ih => intro r h; exact ih _ (inv_step r op h)
+  | cons op rest ih => intro r h; exact ih _ (invU_step f r op h)
 
-theorem inv_reachable (ops : List Op) : Inv (run Reg.init ops) := inv_run ops _ inv_init
+/-- The invariant holds in every reachable state. -/
+theorem inv_run (f : Fac) (hf : Faithful f) (ops : List Op) : ∀ r, Inv r → Inv (run f r ops) := by
+  induction ops with
+  | nil => intro r h; exact h
+  | cons op rest ih => intro r h; exact ih _ (inv_step f hf r op h)
+
+theorem invU_reachable (reg : Nat → Bool) (f : Fac) (ops : List Op) : InvU (run f (Reg.init reg) ops) :=
+  invU_run f ops _ (invU_init reg)
+
+theorem inv_reachable (reg : Nat → Bool) (f : Fac) (hf : Faithful f) (ops : List Op) :
+    Inv (run f (Reg.init reg) ops) := inv_run f hf ops _ (inv_init reg)
 
 /-! ### Consequences: the queries agree with the live population -/
 
 theorem pairwise_lt_nodup (l : List Nat) (h : l.Pairwise (· < ·)) : l.Nodup :=
   h.imp (fun hab => Nat.ne_of_lt hab)
 
-/-- ids are unique among live agents. -/
-theorem C14_ids_unique (ops : List Op) : ((run Reg.init ops).agents.map (·.id)).Nodup :=
-  pairwise_lt_nodup _ (inv_reachable ops).sorted
+/-- ids are unique among live agents (any factory). -/
+theorem C14_ids_unique (reg : Nat → Bool) (f : Fac) (ops : List Op) :
+    ((run f (Reg.init reg) ops).agents.map (·.id)).Nodup :=
+  pairwise_lt_nodup _ (invU_reachable reg f ops).sorted
 
 /-- ids are never reused: the list of all ids ever handed out has no duplicates, and every future id
-(`next`) is larger than all of them. -/
-theorem C14_ids_never_reused (ops : List Op) :
-    (run Reg.init ops).ever.Nodup ∧ ∀ i ∈ (run Reg.init ops).ever, i < (run Reg.init ops).next :=
-  ⟨pairwise_lt_nodup _ (inv_reachable ops).everSorted, (inv_reachable ops).everBound⟩
+(`next`) is larger than all of them (any factory). -/
+theorem C14_ids_never_reused (reg : Nat → Bool) (f : Fac) (ops : List Op) :
+    (run f (Reg.init reg) ops).ever.Nodup ∧
+      ∀ i ∈ (run f (Reg.init reg) ops).ever, i < (run f (Reg.init reg) ops).next :=
+  ⟨pairwise_lt_nodup _ (invU_reachable reg f ops).everSorted, (invU_reachable reg f ops).everBound⟩
 
 theorem find_of_mem_nodup (as : List Agent) (hn : (as.map (·.id)).Nodup) (a : Agent) (ha : a ∈ as) :
     as.find? (fun b => b.id == a.id) = some a := by
@@ -200,9 +361,9 @@ theorem find_of_mem_nodup (as : List Agent) (hn : (as.map (·.id)).Nodup) (a : A
         intro he; apply hn.1; rw [he]; exact List.mem_map.mpr ⟨a, ha', rfl⟩
       simp [hne, ih hn.2 ha']
 
-/-- lookup by id returns the agent with that id, or nothing when no live agent has it. -/
-theorem C14_lookup (ops : List Op) (id : Nat) :
-    let r := run Reg.init ops
+/-- lookup by id returns the agent with that id, or nothing when no live agent has it (any factory). -/
+theorem C14_lookup (reg : Nat → Bool) (f : Fac) (ops : List Op) (id : Nat) :
+    let r := run f (Reg.init reg) ops
     (∀ a, lookup r id = some a → a ∈ r.agents ∧ a.id = id) ∧
     (lookup r id = none ↔ ∀ a ∈ r.agents, a.id ≠ id) ∧
     (∀ a ∈ r.agents, lookup r a.id = some a) := by
@@ -214,16 +375,32 @@ theorem C14_lookup (ops : List Op) (id : Nat) :
     exact ⟨h1, by simpa using h2⟩
   · simp [lookup, List.find?_eq_none]
   · intro a ha
-    exact find_of_mem_nodup _ (C14_ids_unique ops) a ha
+    exact find_of_mem_nodup _ (C14_ids_unique reg f ops) a ha
 
 /-- per-type id lists contain exactly the ids of the live agents of that type (in creation order). -/
-theorem C14_agent_ids (ops : List Op) (ty : Nat) :
-    agentIds (run Reg.init ops) ty = (liveOfType (run Reg.init ops) ty).map (·.id) :=
-  (inv_reachable ops).tmapOk ty
+theorem C14_agent_ids (reg : Nat → Bool) (f : Fac) (hf : Faithful f) (ops : List Op) (ty : Nat) :
+    agentIds (run f (Reg.init reg) ops) ty = (liveOfType (run f (Reg.init reg) ops) ty).map (·.id) :=
+  (inv_reachable reg f hf ops).tmapOk ty
 
-theorem C14_count (ops : List Op) (ty : Nat) :
-    count (run Reg.init ops) ty = (liveOfType (run Reg.init ops) ty).length := by
-  simp [count, (inv_reachable ops).tmapOk ty, idsOfType, liveOfType]
+theorem C14_count (reg : Nat → Bool) (f : Fac) (hf : Faithful f) (ops : List Op) (ty : Nat) :
+    count (run f (Reg.init reg) ops) ty = (liveOfType (run f (Reg.init reg) ops) ty).length := by
+  simp [count, (inv_reachable reg f hf ops).tmapOk ty, idsOfType, liveOfType]
+
+/-- for a registered type the queries do not raise KeyError. -/
+theorem C14_mapped (reg : Nat → Bool) (f : Fac) (ops : List Op) (ty : Nat) (h : reg ty = true) :
+    (run f (Reg.init reg) ops).mapped ty = true := by
+  apply (invU_reachable reg f ops).regMapped
+  rw [reg_run]; exact h
+
+theorem C14_agent_ids_noerr (reg : Nat → Bool) (f : Fac) (hf : Faithful f) (ops : List Op) (ty : Nat)
+    (h : reg ty = true) :
+    agentIdsE (run f (Reg.init reg) ops) ty = some ((liveOfType (run f (Reg.init reg) ops) ty).map (·.id)) ∧
+    countE (run f (Reg.init reg) ops) ty = some (liveOfType (run f (Reg.init reg) ops) ty).length := by
+  have hm := C14_mapped reg f ops ty h
+  have h1 := C14_agent_ids reg f hf ops ty
+  have h2 := C14_count reg f hf ops ty
+  simp only [agentIds, count] at h1 h2
+  simp [agentIdsE, countE, hm, h1]
 
 theorem fold_count (c : Cfg) (hc : c.countById = true) (r : Reg)
     (hn : (r.agents.map (·.id)).Nodup) (st : Nat) :
@@ -246,66 +423,348 @@ theorem fold_count (c : Cfg) (hc : c.countById = true) (r : Reg)
 
 /-- counts per type-and-state equal the number of live agents of that type in that state, and the
 query never fails — provided the per-state count looks agents up by id (`cfg.countById`). -/
-theorem C14_count_per_state (c : Cfg) (hc : c.countById = true) (ops : List Op) (ty st : Nat) :
-    countPerState c (run Reg.init ops) ty st
-      = some (liveOfTypeState (run Reg.init ops) ty st).length := by
-  have hinv := inv_reachable ops
+theorem C14_count_per_state (c : Cfg) (hc : c.countById = true) (reg : Nat → Bool) (f : Fac)
+    (hf : Faithful f) (ops : List Op) (ty st : Nat) (h : reg ty = true) :
+    countPerState c (run f (Reg.init reg) ops) ty st
+      = some (liveOfTypeState (run f (Reg.init reg) ops) ty st).length := by
+  have hinv := inv_reachable reg f hf ops
   unfold countPerState
-  rw [hinv.tmapOk ty]
+  rw [if_pos (C14_mapped reg f ops ty h), hinv.tmapOk ty]
   unfold idsOfType
-  rw [fold_count c hc _ (C14_ids_unique ops) st _ (fun a ha => (List.mem_filter.mp ha).1) 0]
+  rw [fold_count c hc _ (C14_ids_unique reg f ops) st _ (fun a ha => (List.mem_filter.mp ha).1) 0]
   simp [liveOfTypeState, List.filter_filter, Bool.and_comm]
 
-/-- `next_agent` returns a live agent of the requested type and state, and none only if there is none. -/
+/-- `next_agent` returns a live agent whose attribute and state are the requested ones — the FIRST
+such agent in list order — and none only if there is none (any state, any factory). -/
 theorem C14_next_agent (r : Reg) (ty st : Nat) :
     (∀ id, nextAgent r ty st = some id → ∃ a ∈ liveOfTypeState r ty st, a.id = id) ∧
-    (nextAgent r ty st = none ↔ liveOfTypeState r ty st = []) := by
-  constructor
+    (nextAgent r ty st = none ↔ liveOfTypeState r ty st = []) ∧
+    nextAgent r ty st = (liveOfTypeState r ty st).head?.map (·.id) := by
+  refine ⟨?_, ?_, ?_⟩
   · intro id h
     simp only [nextAgent, Option.map_eq_some_iff] at h
     obtain ⟨a, ha, rfl⟩ := h
     exact ⟨a, List.mem_filter.mpr ⟨List.mem_of_find?_eq_some ha, List.find?_some (p := fun (a : Agent) => a.ty == ty && a.state == st) ha⟩, rfl⟩
   · simp [nextAgent, liveOfTypeState, List.find?_eq_none, List.filter_eq_nil_iff]
+  · simp [nextAgent, liveOfTypeState, List.head?_filter]
 
-/-- The full property for configuration `c`. -/
+/-! ### `random_agents` -/
+
+/-- `round(u * hi)` with `0 ≤ u = p/q ≤ 1` lies in `0..hi`: `get_random_integer(0, n-1)` is a valid
+index into a list of length `n ≥ 1`. -/
+theorem roundHE_le (p q m : Nat) (hq : 0 < q) (hp : p ≤ q) : roundHE (p * m) q ≤ m := by
+  have h1 := Nat.div_add_mod (p * m) q
+  have h2 := Nat.mod_lt (p * m) hq
+  have h3 : p * m ≤ q * m := Nat.mul_le_mul_right m hp
+  have hd : p * m / q ≤ m := Nat.div_le_of_le_mul h3
+  unfold roundHE
+  simp only
+  by_cases he : p * m / q = m
+  · rw [he] at h1 ⊢
+    have h0 : p * m % q = 0 := by omega
+    simp [h0, hq]
+  · split
+    · exact hd
+    · split
+      · omega
+      · split <;> omega
+
+theorem randInt_lt (u : Nat × Nat) (n : Nat) (hq : 0 < u.2) (hp : u.1 ≤ u.2) (hn : 0 < n) :
+    randInt u (n - 1) < n := by
+  have := roundHE_le u.1 u.2 (n - 1) hq hp
+  simp only [randInt]; omega
+
+theorem pick_spec (m : List Nat) (idx : Nat → Nat) :
+    ∀ k, (∀ j, j < k → idx j < m.length) →
+      ∃ l, pick m idx k = some l ∧ l.length = k ∧ ∀ x ∈ l, x ∈ m := by
+  intro k
+  induction k with
+  | zero => intro _; exact ⟨[], rfl, rfl, by simp⟩
+  | succ k ih =>
+    intro h
+    obtain ⟨l, hl, hlen, hmem⟩ := ih (fun j hj => h j (by omega))
+    have hk := h k (by omega)
+    refine ⟨l ++ [m[idx k]], ?_, by simp [hlen], ?_⟩
+    · simp [pick, hl, List.getElem?_eq_getElem hk]
+    · intro x hx
+      rcases List.mem_append.mp hx with hx | hx
+      · exact hmem x hx
+      · simp at hx; subst hx; exact List.getElem_mem hk
+
+/-- with in-range indices `random_agents` does not raise, returns `min(num, n)` ids, all from the
+type's id list. -/
+theorem randomAgentsIdx_spec (r : Reg) (ty num : Nat) (idx : Nat → Nat) (hm : r.mapped ty = true)
+    (hidx : ∀ j, j < min num (r.tmap ty).length → idx j < (r.tmap ty).length) :
+    ∃ l, randomAgentsIdx r ty num idx = some l ∧ l.length = min num (r.tmap ty).length ∧
+      ∀ x ∈ l, x ∈ r.tmap ty := by
+  simp only [randomAgentsIdx, hm, if_true]
+  exact pick_spec _ idx _ hidx
+
+/-- a well-formed random source: every `random()` value `p/q` lies in [0, 1]. -/
+def UnitDraws (us : Nat → Nat × Nat) : Prop := ∀ j, 0 < (us j).2 ∧ (us j).1 ≤ (us j).2
+
+theorem randomAgents_spec (r : Reg) (ty num : Nat) (us : Nat → Nat × Nat) (hm : r.mapped ty = true)
+    (hu : UnitDraws us) :
+    ∃ l, randomAgents r ty num us = some l ∧ l.length = min num (r.tmap ty).length ∧
+      ∀ x ∈ l, x ∈ r.tmap ty := by
+  apply randomAgentsIdx_spec r ty num _ hm
+  intro j hj
+  exact randInt_lt (us j) _ (hu j).1 (hu j).2 (by omega)
+
+theorem randomAgents_unmapped (r : Reg) (ty num : Nat) (us : Nat → Nat × Nat) (hm : r.mapped ty = false) :
+    randomAgents r ty num us = none := by
+  simp [randomAgents, randomAgentsIdx, hm]
+
+/-- `random_agents(type, num)` in every reachable state, for every random source: never raises for a
+registered type, returns exactly `min(num, number of live agents of the type)` ids, each the id of a
+live agent of that type (so `[]` when there are none). -/
+theorem C14_random_agents (reg : Nat → Bool) (f : Fac) (hf : Faithful f) (ops : List Op) (ty num : Nat)
+    (us : Nat → Nat × Nat) (h : reg ty = true) (hu : UnitDraws us) :
+    let r := run f (Reg.init reg) ops
+    ∃ l, randomAgents r ty num us = some l ∧ l.length = min num (liveOfType r ty).length ∧
+      ∀ x ∈ l, ∃ a ∈ liveOfType r ty, a.id = x := by
+  intro r
+  obtain ⟨l, h1, h2, h3⟩ := randomAgents_spec r ty num us (C14_mapped reg f ops ty h) hu
+  have ht : r.tmap ty = (liveOfType r ty).map (·.id) := C14_agent_ids reg f hf ops ty
+  refine ⟨l, h1, ?_, ?_⟩
+  · rw [h2, ht]; simp
+  · intro x hx
+    have := h3 x hx
+    rw [ht] at this
+    obtain ⟨a, ha, rfl⟩ := List.mem_map.mp this
+    exact ⟨a, ha, rfl⟩
+
+/-! ### The full property -/
+
+/-- The full property for configuration `c`: every set of registered keys, every faithful factory,
+every history. -/
 def C14_full (c : Cfg) : Prop :=
-  ∀ ops : List Op,
-    let r := run Reg.init ops
+  ∀ (reg : Nat → Bool) (f : Fac), Faithful f → ∀ ops : List Op,
+    let r := run f (Reg.init reg) ops
     (r.agents.map (·.id)).Nodup ∧ r.ever.Nodup ∧ (∀ i ∈ r.ever, i < r.next) ∧
     (∀ a ∈ r.agents, lookup r a.id = some a) ∧
     (∀ id a, lookup r id = some a → a ∈ r.agents ∧ a.id = id) ∧
     (∀ ty, agentIds r ty = (liveOfType r ty).map (·.id)) ∧
     (∀ ty, count r ty = (liveOfType r ty).length) ∧
-    (∀ ty st, countPerState c r ty st = some (liveOfTypeState r ty st).length)
+    (∀ ty st, reg ty = true → countPerState c r ty st = some (liveOfTypeState r ty st).length) ∧
+    -- wave 2
+    (∀ ty, reg ty = true → agentIdsE r ty = some ((liveOfType r ty).map (·.id)) ∧
+                            countE r ty = some (liveOfType r ty).length) ∧
+    (∀ ty st, nextAgent r ty st = (liveOfTypeState r ty st).head?.map (·.id)) ∧
+    (∀ ty num us, reg ty = true → UnitDraws us →
+        ∃ l, randomAgents r ty num us = some l ∧ l.length = min num (liveOfType r ty).length ∧
+          ∀ x ∈ l, ∃ a ∈ liveOfType r ty, a.id = x)
 
 theorem C14_full_of_good (c : Cfg) (hc : c.countById = true) : C14_full c := by
-  intro ops r
-  exact ⟨C14_ids_unique ops, (C14_ids_never_reused ops).1, (C14_ids_never_reused ops).2,
-    (C14_lookup ops 0).2.2, fun id => (C14_lookup ops id).1, C14_agent_ids ops, C14_count ops,
-    C14_count_per_state c hc ops⟩
+  intro reg f hf ops r
+  exact ⟨C14_ids_unique reg f ops, (C14_ids_never_reused reg f ops).1, (C14_ids_never_reused reg f ops).2,
+    (C14_lookup reg f ops 0).2.2, fun id => (C14_lookup reg f ops id).1, C14_agent_ids reg f hf ops,
+    C14_count reg f hf ops, fun ty st h => C14_count_per_state c hc reg f hf ops ty st h,
+    fun ty h => C14_agent_ids_noerr reg f hf ops ty h,
+    fun ty st => (C14_next_agent _ ty st).2.2,
+    fun ty num us h hu => C14_random_agents reg f hf ops ty num us h hu⟩
 
 /-- What holds whatever `agent_count_per_state` does (every query but that one). -/
-theorem C14_partial (ops : List Op) :
-    let r := run Reg.init ops
+theorem C14_partial (reg : Nat → Bool) (f : Fac) (hf : Faithful f) (ops : List Op) :
+    let r := run f (Reg.init reg) ops
     (r.agents.map (·.id)).Nodup ∧ r.ever.Nodup ∧
     (∀ a ∈ r.agents, lookup r a.id = some a) ∧
     (∀ ty, agentIds r ty = (liveOfType r ty).map (·.id)) ∧
     (∀ ty, count r ty = (liveOfType r ty).length) :=
-  ⟨C14_ids_unique ops, (C14_ids_never_reused ops).1, (C14_lookup ops 0).2.2, C14_agent_ids ops,
-    C14_count ops⟩
+  ⟨C14_ids_unique reg f ops, (C14_ids_never_reused reg f ops).1, (C14_lookup reg f ops 0).2.2,
+    C14_agent_ids reg f hf ops, C14_count reg f hf ops⟩
+
+theorem faithful_id : Faithful Fac.id := fun _ _ => rfl
 
 /-- Negation witness for positional lookup (`agents[id]`): after deleting agent 1 of four, the
 per-state count raises (IndexError on id 3) instead of answering 3. -/
 theorem C14_witness_positional (c : Cfg) (hc : c.countById = false) : ¬ C14_full c := by
   intro h
-  have := (h [.create 0, .create 0, .create 0, .create 0, .delete [1]]).2.2.2.2.2.2.2 0 0
-  cases c; simp only at hc; subst hc
+  have := (h (fun _ => true) Fac.id faithful_id
+    [.create 0, .create 0, .create 0, .create 0, .delete [1]]).2.2.2.2.2.2.2.1 0 0 rfl
+  obtain ⟨a, b⟩ := c; simp only at hc; subst hc
+  revert this; cases b <;> decide
+
+/-! ### Arbitrary factories (attribute ≠ key allowed) -/
+
+/-- What holds for EVERY factory, whatever `agent_type` its agents carry: ids unique and never
+reused, lookup by id exact, every listed id was handed out earlier and no list has duplicates,
+`next_agent` is the first live agent with the requested attribute and state, and `random_agents`
+returns `min(num, len(list))` members of the type's id list without raising when the key is in the
+map. -/
+theorem C14_partial_anyattr (reg : Nat → Bool) (f : Fac) (ops : List Op) :
+    let r := run f (Reg.init reg) ops
+    (r.agents.map (·.id)).Nodup ∧ r.ever.Nodup ∧ (∀ i ∈ r.ever, i < r.next) ∧
+    (∀ a ∈ r.agents, lookup r a.id = some a) ∧
+    (∀ id a, lookup r id = some a → a ∈ r.agents ∧ a.id = id) ∧
+    (∀ id, lookup r id = none ↔ ∀ a ∈ r.agents, a.id ≠ id) ∧
+    (∀ ty, ∀ i ∈ agentIds r ty, i ∈ r.ever) ∧
+    (∀ ty, (agentIds r ty).Nodup) ∧
+    (∀ ty, reg ty = true → r.mapped ty = true) ∧
+    (∀ ty st, nextAgent r ty st = (liveOfTypeState r ty st).head?.map (·.id)) ∧
+    (∀ ty num us, r.mapped ty = true → UnitDraws us →
+        ∃ l, randomAgents r ty num us = some l ∧ l.length = min num (count r ty) ∧
+          ∀ x ∈ l, x ∈ agentIds r ty) := by
+  intro r
+  have hi := invU_reachable reg f ops
+  exact ⟨C14_ids_unique reg f ops, (C14_ids_never_reused reg f ops).1, (C14_ids_never_reused reg f ops).2,
+    (C14_lookup reg f ops 0).2.2, fun id => (C14_lookup reg f ops id).1,
+    fun id => (C14_lookup reg f ops id).2.1, hi.tmapEver,
+    fun ty => pairwise_lt_nodup _ (hi.tmapSorted ty), fun ty h => C14_mapped reg f ops ty h,
+    fun ty st => (C14_next_agent _ ty st).2.2,
+    fun ty num us hm hu => randomAgents_spec r ty num us hm hu⟩
+
+def Op.isDelete : Op → Bool
+  | .delete _ => true
+  | _ => false
+
+theorem key_create (f : Fac) (r : Reg) (k : Nat) (h : ∀ t, r.tmap t = idsOfKey r.agents t) :
+    ∀ t, (create f r k).tmap t = idsOfKey (create f r k).agents t := by
+  intro t
+  simp only [create, idsOfKey, List.filter_append, List.map_append]
+  by_cases ht : t = k
+  · subst ht; simp [h, idsOfKey]
+  · have : (k == t) = false := by simp; omega
+    simp [ht, h, idsOfKey, this]
+
+theorem key_createN (f : Fac) (k : Nat) (n : Nat) : ∀ r : Reg, (∀ t, r.tmap t = idsOfKey r.agents t) →
+    ∀ t, (createN f r k n).tmap t = idsOfKey (createN f r k n).agents t := by
+  induction n with
+  | zero => intro r h; exact h
+  | succ n ih => intro r h; exact ih _ (key_create f r k h)
+
+theorem key_createSpec (f : Fac) (spec : List (Nat × Nat)) : ∀ r : Reg, (∀ t, r.tmap t = idsOfKey r.agents t) →
+    ∀ t, (createSpec f r spec).tmap t = idsOfKey (createSpec f r spec).agents t := by
+  induction spec with
+  | nil => intro r h; exact h
+  | cons p rest ih =>
+    intro r h; obtain ⟨k, n⟩ := p
+    simp only [createSpec]; split
+    · exact ih _ (key_createN f k n r h)
+    · exact h
+
+theorem key_run (f : Fac) (ops : List Op) : ∀ r : Reg, (∀ t, r.tmap t = idsOfKey r.agents t) →
+    ops.all (fun o => !o.isDelete) = true →
+    ∀ t, (run f r ops).tmap t = idsOfKey (run f r ops).agents t := by
+  induction ops with
+  | nil => intro r h _; exact h
+  | cons op rest ih =>
+    intro r h hnd
+    simp only [List.all_cons, Bool.and_eq_true] at hnd
+    apply ih _ _ hnd.2
+    cases op with
+    | create k => simp only [step, createOp]; split; exact key_create f r k h; exact h
+    | delete ids => simp [Op.isDelete] at hnd
+    | configure spec => exact key_createSpec f spec _ (by simp [clear, idsOfKey])
+    | reset => simp [step, clear, idsOfKey]
+    | setState id st => intro t; simp only [step, setState_idsOfKey]; exact h t
+    | configureAll spec => exact key_createSpec f spec _ (by simp [clear, idsOfKey])
+
+/-- As long as nothing is deleted, the per-type lists are KEY-based for every factory:
+`agent_ids(k)` = ids of the live agents created under key `k`, whatever their attribute. -/
+theorem C14_anyattr_nodelete (reg : Nat → Bool) (f : Fac) (ops : List Op)
+    (hnd : ops.all (fun o => !o.isDelete) = true) (k : Nat) :
+    agentIds (run f (Reg.init reg) ops) k = (liveOfKey (run f (Reg.init reg) ops) k).map (·.id) :=
+  key_run f ops _ (by simp [Reg.init, idsOfKey]) hnd k
+
+/-- a factory registered under key 0 whose agents say `agent_type = 1`. -/
+def facOther : Fac := fun k _ => if k = 0 then 1 else k
+/-- a factory whose agents carry the unregistered attribute 7. -/
+def facUnreg : Fac := fun k _ => if k = 0 then 7 else k
+/-- under key 0: the agent with id 0 says 1, later ones are faithful. -/
+def facFirst : Fac := fun k i => if k = 0 ∧ i = 0 then 1 else k
+
+def reg2 : Nat → Bool := fun t => t < 2
+
+/-- Witness 1 (stale id): key 0, attribute 1; deleting the only agent rebuilds the list of type 1 and
+leaves id 0 in the list of type 0: the count is 1 with no live agent, and the per-state count raises
+(`None.state`). -/
+theorem C14_witness_anyattr_stale :
+    let r := run facOther (Reg.init reg2) [.create 0, .delete [0]]
+    r.agents = [] ∧ agentIdsE r 0 = some [0] ∧ countE r 0 = some 1 ∧
+      countPerState ⟨true, true⟩ r 0 0 = none ∧ randomAgents r 0 1 (fun _ => (0, 1)) = some [0] := by
+  decide
+
+/-- Witness 2 (live agent in no list): agents 0 (attribute 1) and 1 (attribute 0) under key 0;
+deleting agent 1 rebuilds type 0 from the attributes: agent 0 is alive but listed nowhere. -/
+theorem C14_witness_anyattr_lost :
+    let r := run facFirst (Reg.init reg2) [.create 0, .create 0, .delete [1]]
+    r.agents.map (·.id) = [0] ∧ agentIdsE r 0 = some [] ∧ agentIdsE r 1 = some [] := by
+  decide
+
+/-- Witness 3 (new key): an unregistered attribute becomes a key of the map after a deletion
+(`agent_ids(7)` raised KeyError before, answers `[]` afterwards); creating under it still raises. -/
+theorem C14_witness_anyattr_newkey :
+    agentIdsE (run facUnreg (Reg.init reg2) [.create 0]) 7 = none ∧
+    agentIdsE (run facUnreg (Reg.init reg2) [.create 0, .delete [0]]) 7 = some [] ∧
+    raises (run facUnreg (Reg.init reg2) [.create 0, .delete [0]]) (.create 7) = true := by
+  decide
+
+/-- Hence the hypothesis `Faithful f` of `C14_full` cannot be dropped: the count clause fails for an
+unfaithful factory (and the count-per-state query raises). -/
+theorem C14_full_needs_faithful :
+    ¬ (∀ (reg : Nat → Bool) (f : Fac) (ops : List Op) (ty : Nat),
+        count (run f (Reg.init reg) ops) ty = (liveOfType (run f (Reg.init reg) ops) ty).length) := by
+  intro h
+  have := h reg2 facOther [.create 0, .delete [0]] 0
   revert this; decide
 
-/-- Non-vacuity: a history with all five operation kinds; the per-state counts are the expected numbers. -/
-example : countPerState ⟨true⟩ (run Reg.init
+/-! ### Caller mutation of the list returned by `agent_ids` (outside the property's operations) -/
+
+theorem opsOf_all (ops : List OpX) (h : ops.all OpX.isOp = true) (c : Cfg) (f : Fac) :
+    ∀ r, runX c f r ops = run f r (opsOf ops) := by
+  induction ops with
+  | nil => intro r; rfl
+  | cons o rest ih =>
+    intro r
+    simp only [List.all_cons, Bool.and_eq_true] at h
+    cases o with
+    | op o => simp only [runX, List.foldl_cons, stepX, opsOf, run] at ih ⊢; exact ih h.2 _
+    | callerAppend ty x => simp [OpX.isOp] at h
+
+/-- When `agent_ids` returns a copy, caller mutations are invisible: any extended history reaches the
+state of its proper operations, so the whole of `C14_full` applies to it. -/
+def AliasSafe (c : Cfg) : Prop := ∀ (f : Fac) (ops : List OpX) (r : Reg), runX c f r ops = run f r (opsOf ops)
+
+theorem C14_alias_safe (c : Cfg) (hc : c.idsAliased = false) : AliasSafe c := by
+  intro f ops
+  induction ops with
+  | nil => intro r; rfl
+  | cons o rest ih =>
+    intro r
+    cases o with
+    | op o => simp only [runX, List.foldl_cons, stepX, opsOf, run] at ih ⊢; exact ih _
+    | callerAppend ty x =>
+      simp only [runX, List.foldl_cons, stepX, opsOf, hc, Bool.false_and] at ih ⊢
+      exact ih _
+
+/-- Histories made of the property's own operations never depend on the aliasing fact. -/
+theorem C14_alias_irrelevant (c : Cfg) (f : Fac) (ops : List Op) (r : Reg) :
+    runX c f r (ops.map OpX.op) = run f r ops := by
+  induction ops generalizing r with
+  | nil => rfl
+  | cons o rest ih => simp only [List.map_cons, runX, List.foldl_cons, stepX, run] at ih ⊢; exact ih _
+
+/-- With the internal list handed out, one caller append corrupts the registry: `agent_count` is 1
+with no live agent, and the per-state count raises. -/
+def AliasCorrupts (c : Cfg) : Prop :=
+  let r := runX c Fac.id (Reg.init reg2) [.callerAppend 0 5]
+  count r 0 = 1 ∧ (liveOfType r 0).length = 0 ∧ countPerState ⟨true, true⟩ r 0 0 = none
+
+theorem C14_alias_witness (c : Cfg) (hc : c.idsAliased = true) : AliasCorrupts c := by
+  unfold AliasCorrupts
+  obtain ⟨a, b⟩ := c; simp only at hc; subst hc
+  cases a <;> decide
+
+/-- Non-vacuity: a history with all operation kinds; the per-state counts are the expected numbers. -/
+example : countPerState ⟨true, true⟩ (run Fac.id (Reg.init reg2)
     [.create 0, .create 1, .create 0, .delete [0], .setState 2 5, .configure [(0, 2), (1, 1)],
-     .setState 4 7, .create 1, .delete [3, 9]]) 0 7 = some 1 := by decide
+     .setState 4 7, .create 1, .delete [3, 9], .configureAll [(0, 1), (1, 2)], .setState 7 7, .create 5]) 0 7 = some 1 := by decide
+
+/-- Non-vacuity of the random-agents clause: three draws 0, 1/2, 63/64 on the list [3,4,6] of type 0. -/
+example : randomAgents (run Fac.id (Reg.init reg2)
+    [.create 1, .create 1, .create 1, .create 0, .create 0, .create 1, .create 0, .delete [0]]) 0 5
+    (fun j => [(0, 64), (32, 64), (63, 64)].getD j (0, 1)) = some [3, 4, 6] := by decide
 
 #print axioms C14_full_of_good
 #print axioms C14_partial
@@ -313,5 +772,16 @@ example : countPerState ⟨true⟩ (run Reg.init
 #print axioms C14_next_agent
 #print axioms C14_lookup
 #print axioms C14_ids_never_reused
+#print axioms C14_random_agents
+#print axioms roundHE_le
+#print axioms C14_partial_anyattr
+#print axioms C14_anyattr_nodelete
+#print axioms C14_witness_anyattr_stale
+#print axioms C14_witness_anyattr_lost
+#print axioms C14_witness_anyattr_newkey
+#print axioms C14_full_needs_faithful
+#print axioms C14_alias_safe
+#print axioms C14_alias_irrelevant
+#print axioms C14_alias_witness
 
 end Bptk.C14
